@@ -83,6 +83,15 @@ def kctr_parts(quick, what="all"):
         if what in ("all", "key"): out += ["kctr_mc_%s_sk_%d" % (be, r) for r in ((6, 9) if quick else (4, 5, 6, 7, 8, 9))]
         if what in ("all", "tweak"): out += ["kctr_mc_%s_st_%s" % (be, t) for t in (("null",) if quick else ("8", "null", "7"))]
     return out
+# key setters of the parallel-ECB objects functionally (WholeParKey.v)
+def kpar_parts(quick):
+    out = []
+    for c, bs in (("c128", 16), ("c64", 8)):
+        szs = [bs - 1, bs + 1, 3 * bs] if quick else [0, bs - 1, bs, bs + 1, 2 * bs, 2 * bs + 5, 3 * bs, 3 * bs + 1, 4294967295]
+        out += ["kpar_%s_sk_%d" % (c, n) for n in szs]
+    out += ["kpar_mc_sk_%d_%d" % (r, m) for r, m in (((5, 0), (8, 1)) if quick else [(r, m) for r in (5, 6, 7, 8) for m in (0, 1)])]
+    out += ["kpar_mc_skbad_16_9", "kpar_mc_swap"] + ([] if quick else ["kpar_mc_skbad_15_6", "kpar_mc_skbad_16_4"])
+    return out
 def key_parts(w, quick):
     bs = 16 if w == "128" else 8
     fam = "key" + w
@@ -121,13 +130,17 @@ def one(repo_copy, gen, cfg, part):
                  secret_dependent=("secret-dependent" in err))
         return r
     m = re.search(r"(\d+) whole-function", out); r["obligations"] = int(m.group(1)) if m else 1
-    import subprocess
-    try:
-        rc, out, err = C.sh(["coqc", "-Q", C.COQ, "Skinny", gv], cwd=gen, timeout=900)
-    except subprocess.TimeoutExpired:
-        # e.g. a length that wraps around makes the partial evaluator unroll billions of byte stores: the obligation is not shown
-        r.update(stage="obligation", failed="%s (coqc did not finish in 900 s)" % part, log="timeout")
-        return r
+    import subprocess, time
+    for attempt in range(3):
+        try:
+            rc, out, err = C.sh(["coqc", "-Q", C.COQ, "Skinny", gv], cwd=gen, timeout=900)
+        except subprocess.TimeoutExpired:
+            # e.g. a length that wraps around makes the partial evaluator unroll billions of byte stores: the obligation is not shown
+            r.update(stage="obligation", failed="%s (coqc did not finish in 900 s)" % part, log="timeout")
+            return r
+        if rc == 0 or "Error" in out + err: break
+        # coqc died without reporting an error (killed: memory pressure when many checks run at once): not a verdict, try again
+        time.sleep(30 * (attempt + 1))
     if rc == 0 and "Axioms:" not in out:
         r.update(ok=True, discharged=r["obligations"]); return r
     # which obligation fails
